@@ -643,6 +643,20 @@ def h_c18_partition(case, pick, st, stats):
             if ak.to_list(P) != ak.to_list(whole):
                 return "step %d: repartition changed the values: %s" % (i, json.dumps(ak.to_list(P))[:160])
             continue
+        if op == "hl":
+            f = lambda x, g=_PART_HL[h["f"]]: _part_observe(ak, g(ak, st["np"], x))
+            err, out = both(f)
+            if err:
+                return "step %d (%s): %s" % (i, h["f"], err)
+            (okp, vp), (okw, vw) = out
+            if okw == 0:
+                continue                     # not applicable to this data (e.g. no lists to flatten): not judged
+            if okp != 1:
+                return "step %d (%s): raised %s on the partitioned array; the whole array answers %s" % (i, h["f"], vp, json.dumps(vw)[:120])
+            if vp != vw:
+                return "step %d (%s): partitioned %s differs from whole %s" % (i, h["f"], json.dumps(vp)[:200], json.dumps(vw)[:200])
+            stats["hl_judged"] = stats.get("hl_judged", 0) + 1
+            continue
         f = {"at": lambda x: ak.to_list(x[h["i"]]),
              "range": lambda x: ak.to_list(x[h["a"]:h["b"]:h["s"]]),
              "length": lambda x: len(x),
@@ -661,6 +675,40 @@ def h_c18_partition(case, pick, st, stats):
         if vp != vw:
             return "step %d (%s %s): partitioned %s differs from whole %s" % (i, op, json.dumps({k: v for k, v in h.items() if k not in ("op", "exp")}), json.dumps(vp)[:160], json.dumps(vw)[:160])
     return None
+
+
+def _part_observe(ak, r):
+    """what is compared between the partitioned and the whole array: the value, and the result's consistency with itself"""
+    if isinstance(r, ak.Array):
+        return {"list": ak.to_list(r), "len": len(r), "items": [ak.to_list(r[i]) for i in range(len(r))], "last": (ak.to_list(r[-1]) if len(r) else None),
+                "valid": bool(ak.is_valid(r))}
+    if isinstance(r, (list, tuple)):
+        return [_part_observe(ak, x) for x in r]
+    return ak.to_list(r) if isinstance(r, ak.Record) else (r.item() if hasattr(r, "item") else r)
+
+
+_PART_HL = {
+    "flatten0": lambda ak, np, x: ak.flatten(x, axis=0),
+    "flatten1": lambda ak, np, x: ak.flatten(x, axis=1),
+    "num0": lambda ak, np, x: ak.num(x, axis=0),
+    "num1": lambda ak, np, x: ak.num(x, axis=1),
+    "is_none": lambda ak, np, x: ak.is_none(x),
+    "fill_none": lambda ak, np, x: ak.fill_none(x, 77, axis=0),
+    "count": lambda ak, np, x: ak.count(x, axis=None),
+    "sum_none": lambda ak, np, x: ak.sum(x, axis=None),
+    "sum0": lambda ak, np, x: ak.sum(x, axis=-1),
+    "ufunc": lambda ak, np, x: x * 2 + 1,
+    "mask": lambda ak, np, x: ak.mask(x, x == x),
+    "local_index": lambda ak, np, x: ak.local_index(x, axis=-1),
+    "pad_none": lambda ak, np, x: ak.pad_none(x, 3, axis=-1),
+    "firsts": lambda ak, np, x: ak.firsts(x, axis=1),
+    "sort": lambda ak, np, x: ak.sort(x, axis=-1),
+    "concat_self": lambda ak, np, x: ak.concatenate([x, x], axis=0),
+    "values_astype": lambda ak, np, x: ak.values_astype(x, np.float32),
+    "zip_self": lambda ak, np, x: ak.zip({"a": x, "b": x}),
+    "field": lambda ak, np, x: ak.zip({"a": x, "b": x})["b"],
+    "packed": lambda ak, np, x: ak.packed(x),
+}
 
 
 def _fix_shape(n):
